@@ -503,6 +503,10 @@ func c01Purity(c *Ctx) {
 						why = "store to global " + r.Name()
 					case *ssa.FreeVar:
 						ok = true // closure-local state of a local variable
+					case *ssa.Call:
+						// the object a constructor helper of the builder has just allocated (header())
+						ok = an.CtorAlloc(r) != nil
+						why = "store through the result of " + r.Call.Value.Name()
 					default:
 						// element of a freshly made slice/array?
 						if e := c.XO.Of(x.Addr); e.Contains(func(y *an.Expr) bool { return y.Op == an.OpMake || y.Op == an.OpAppend }) {
